@@ -17,7 +17,7 @@ def gen_case(r, info=None):
     order = list(range(4)); 
     for i in order:
         if r.chance(4, 5):
-            parent = r.choice([(), (1,), (2,)]) if i else ()
+            parent = r.choice([(), (1,), (2,), (1, 2), (2, 7)]) if i else ()      # boards on every node level (1..3)
             local = r.range(1, 9)
             addr = tuple(parent) + (local,)
             if addr in where.values() or len(addr) > 3: continue
